@@ -1,20 +1,21 @@
 SPECIFICATION Spec
 CONSTANTS
   Classes <- Classes4
-  Outs <- OutsC04
-  Durs = {0, 2}
-  Rets <- RetsOne
+  Outs <- OutsC10
+  Durs = {1}
+  Rets <- RetsTwoSmall
   Advs <- AdvsExact
-  Decs <- DecsAll
+  Decs <- DecsSleep
   BFaults <- BFaultsNone
   Ras <- RasNone
   Modes = {"exec"}
-  RunGaps <- GapsNone
-  NRuns = 1
-  Configs <- ConfigsC11
+  RunGaps <- GapsC10
+  NRuns = 3
+  Configs <- ConfigsC10
   RecordHist = FALSE
 INVARIANT NoViolation
 INVARIANT AttemptsBounded
 INVARIANT InvokeWithinDeadline
 INVARIANT SleepWithinRemaining
+INVARIANT DeliveriesRelated
 CHECK_DEADLOCK FALSE
